@@ -10,13 +10,17 @@ TRACE_MODULE = "C19_Trace"
 EXHAUSTIVE = True
 RULE = ("scenarios are batches: every genotype of a (ploidy, #alleles) space enumerated by TLC (Gen_C19), "
         "all ordered genotype pairs of small spaces, every string pair over a small alphabet enumerated by TLC, "
-        "plus seeded random genotypes up to ploidy 14 / 16 alleles and random strings up to length 14; a batch is "
+        "plus seeded random genotypes up to ploidy 14 / 16 alleles and random strings up to length 14, and batches of planted "
+        "long pairs (300-700 letters, distance = number of planted foreign letters) whose calls are issued from 4-8 threads at "
+        "once (the DP runs without the interpreter lock); a batch is "
         "non-trivial if it contains a heterozygous genotype of ploidy >= 2, or a string pair with distance >= 1 "
         "and both strings non-empty")
 ASSUMPTIONS = [
     "TLC evaluates the TLA+ definitions (order-rank Index, recursive Lev) correctly",
     "IndexCF (closed form) is used instead of the counting definition beyond ploidy 6 / 6 alleles; MC_GenotypeIndex proves them equal up to ploidy 4-5 / 5-6 alleles only",
     "LevDP is used instead of the recursive definition; MC_EditDistance proves them equal on all string pairs up to length 3-4",
+    "concurrent calls are judged on planted pairs only: s avoids one letter, t = s with d positions replaced by that letter, so "
+    "Lev(s, t) = d (every foreign letter needs its own edit operation, d substitutions suffice); TLC checks the planting",
 ]
 BANDS = 6  # bands 0..5
 
@@ -147,6 +151,18 @@ def scenarios(ctx):
                     t[rng.randrange(len(t))] = rng.randrange(k)
             prs.append([s, t])
         scs.append({"kind": "edit", "pairs": prs, "bytes": rng.random() < 0.5})
+    # the distance of a call must not depend on what other threads are doing (the DP runs without the interpreter lock):
+    # the same calls issued from several threads at once, on strings long enough for the calls to overlap
+    for _ in range(2 if ctx.quick else 8):
+        prs = []
+        for _ in range(8):
+            n = rng.randint(300, 700)
+            s1 = [rng.randrange(3) for _ in range(n)]          # letters 0..2 only
+            t1 = list(s1)
+            for pos in rng.sample(range(n), rng.randint(1, 40)):
+                t1[pos] = 3                                      # planted substitutions by a letter s does not contain
+            prs.append([s1, t1])
+        scs.append({"kind": "editpar", "pairs": prs, "threads": rng.choice([4, 8]), "reps": 40})
     return scs
 
 
@@ -246,6 +262,23 @@ def drive(sc):
                 s1, t1 = (ss, tt.encode()) if n % 8 == 0 else (ss.encode(), tt)
                 evs.append({"ev": "Edit", "s": s, "t": t, "unb": int(edit_distance(s1, t1)),
                             "banded": [int(edit_distance(s1, t1, b)) for b in range(BANDS)], "kind": "mixed", "order": "mixed-types"})
+    elif k == "editpar":
+        from concurrent.futures import ThreadPoolExecutor
+        strs = [("".join(LETTERS[c] for c in a), "".join(LETTERS[c] for c in b)) for a, b in sc["pairs"]]
+
+        def work(w):
+            out = []
+            for r in range(sc["reps"]):
+                for n in range(len(strs)):
+                    m = (n + w) % len(strs)
+                    out.append((m, int(edit_distance(strs[m][0], strs[m][1]))))
+            return out
+        with ThreadPoolExecutor(max_workers=sc["threads"]) as ex:
+            res = [x for part in ex.map(work, range(sc["threads"])) for x in part]
+        for n, (a, b) in enumerate(sc["pairs"]):
+            seen = sorted({d for m, d in res if m == n})
+            evs.append({"ev": "EditPar", "s": a, "t": b, "res": seen, "calls": sum(1 for m, _ in res if m == n),
+                        "threads": sc["threads"]})
     return evs
 
 
